@@ -157,25 +157,33 @@ def DateTime.addTimeSpan (t : DateTime) (ns : Int) : DateTime := t + ns
 /-- `daysOfMonth(year, month)`: day of `MakeDateTime(year, month+1, 1) - Day` -/
 def daysOfMonth (y m : Int) : Int := DateTime.day (goDate y (m + 1) 1 0 0 0 0 - nsPerDay)
 
-/-- `DateTime.AddDateSpan`: days first — as `TimeSpan(days) * Day`, an `int64` product that wraps for
-`|days| > 106751` — then months with the day clamped to the length of the target month. -/
-def DateTime.addDateSpan (t : DateTime) (s : DateSpan) : DateTime :=
-  let result := t.addTimeSpan (wrap64 (s.days * nsPerDay))
+/-- `DateTime.addMonthsAndDays`: days first (`time.Time.AddDate(0, 0, days)`: on the calendar, exact),
+then months with the day clamped to the length of the target month. -/
+def DateTime.addMonthsDays (t : DateTime) (months days : Int) : DateTime :=
+  let result := t + days * nsPerDay
   let oldDay := DateTime.day result
-  let month := DateTime.month result + s.months
+  let month := DateTime.month result + months
   let year := DateTime.year result + quot month 12
   let month := rem month 12
   let newDay := min oldDay (daysOfMonth year month)
   goDate year month newDay 0 0 0 0 + DateTime.tod result
 
-/-- `Date.AddDateSpan`: through `DateTime`, packed back without a range check. -/
-def Date.addDateSpan (d : Date) (s : DateSpan) : Date := (d.toDateTime.addDateSpan s).date
+/-- `DateTime.AddDateSpan` -/
+def DateTime.addDateSpan (t : DateTime) (s : DateSpan) : DateTime := t.addMonthsDays s.months s.days
 
-/-- `DateSpan.ToDate`: `MakeDate(Years, Months, 1)` of `months+1`, then plus the days. A negative month
-count feeds a negative month into `MakeDate`, whose `uint32(month) << 5` then spills into the year bits. -/
+/-- `DateTime.CheckedDate`: the date part, `Date::InvalidYearError` when the year does not fit -/
+def DateTime.checkedDate (t : DateTime) : Except Err Date :=
+  if t.year > maxYear ∨ t.year < minYear then .error .year else .ok t.date
+
+/-- `Date.AddDateSpan`: through `DateTime`, range-checked. -/
+def Date.addDateSpan (d : Date) (s : DateSpan) : Except Err Date := (d.toDateTime.addDateSpan s).checkedDate
+
+/-- `DateSpan.ToDate`: `MakeDate(Years, Months, 1)` of `months+1`, then plus the days (unchecked packing).
+A negative month count feeds a negative month into `MakeDate`, whose `uint32(month) << 5` then spills
+into the year bits. -/
 def DateSpan.toDate (s : DateSpan) : Date :=
   let m1 := wrap32 (s.months + 1)
-  (makeDate (quot m1 12) (rem m1 12) 1).addDateSpan (makeDateSpan 0 0 s.days)
+  ((makeDate (quot m1 12) (rem m1 12) 1).toDateTime.addDateSpan (makeDateSpan 0 0 s.days)).date
 
 /-- `DateTimeSpan.ToDateTime` -/
 def DateTimeSpan.toDateTime (s : DateTimeSpan) : DateTime :=
@@ -186,11 +194,11 @@ def DateTimeSpan.toDateTime (s : DateTimeSpan) : DateTime :=
 def DateTimeSpan.subDateSpan (s : DateTimeSpan) (o : DateSpan) : DateTimeSpan :=
   newDateTimeSpan (s.date.add o.negate) s.time
 
-/-- `DateTime.SubtractDateSpan`: via the span representation (months first, no clamping). -/
-def DateTime.subDateSpan (t : DateTime) (s : DateSpan) : DateTime := (t.toSpan.subDateSpan s).toDateTime
+/-- `DateTime.SubtractDateSpan`: the fields are negated as `int` (no `int32` wrap) and added -/
+def DateTime.subDateSpan (t : DateTime) (s : DateSpan) : DateTime := t.addMonthsDays (-s.months) (-s.days)
 
 /-- `Date.SubtractDateSpan` -/
-def Date.subDateSpan (d : Date) (s : DateSpan) : Date := (d.toDateTime.subDateSpan s).date
+def Date.subDateSpan (d : Date) (s : DateSpan) : Except Err Date := (d.toDateTime.subDateSpan s).checkedDate
 
 /-- `DateTime.DiffDate(val)`: `t.ToDateTimeSpan().SubtractDateSpan(val.ToDateSpan())` -/
 def DateTime.diffDate (t : DateTime) (v : Date) : DateTimeSpan := t.toSpan.subDateSpan v.toDateSpan
